@@ -13,7 +13,8 @@ def tree_dump(node):
 
 
 def trees_case(ctx, idx, rng):
-    L = int(rng.integers(1, 8))
+    L = int(rng.integers(1, 8)) if idx % 10 else int(rng.integers(8, 11))
+    long_ = L >= 8
     ntree = int(rng.integers(1, 5))
     trees, ref = [], {}
     shapes = []
@@ -23,7 +24,8 @@ def trees_case(ctx, idx, rng):
     for _ in range(ntree):
         ist = int(rng.integers(0, L))
         pz = float(rng.choice([0.0, 0.0, 0.25, 0.6]))
-        root, poly = gen.rand_tree(rng, L - ist, nops=int(rng.integers(1, 4)), pleaf=float(rng.choice([0.1, 0.3, 0.5])), maxch=int(rng.integers(1, 4)), pzero=pz, pool=pool)
+        root, poly = gen.rand_tree(rng, L - ist, nops=int(rng.integers(1, 4)), pleaf=float(rng.choice([0.1, 0.3, 0.5])) if not long_ else 0.4,
+                                   maxch=int(rng.integers(1, 4)) if not long_ else 2, pzero=pz, pool=pool)
         zeros = zeros or pz > 0
         t = ptn.OpTree(root, ist)
         trees.append(t)
@@ -108,7 +110,7 @@ def chain_matrix_case(ctx, idx, rng):
 
 def automaton_case(ctx, idx, rng):
     nn = int(rng.integers(2, 7))
-    L = int(rng.integers(1, 8))
+    L = int(rng.integers(1, 8)) if idx % 10 else int(rng.integers(8, 11))
     t0, t1 = (0, 1) if rng.random() < 0.8 else (1, 0)
     if rng.random() < 0.1:
         t1 = t0          # both terminals the same state (pure loops)
